@@ -60,6 +60,9 @@ pub enum Action {
     TxReaderInside { ops: Vec<OpSpec>, commit: bool },
     /// close the handle and open the file again
     Reopen,
+    /// close the handle and open the file again asking for another initial page count (which only
+    /// matters when a file is created): the state must be unchanged; the new handle is kept
+    ReopenNumPages(usize),
     /// close the handle, try to open the file with another page size (must be refused, by an error or
     /// the documented panic, without touching the file), open it again with its own page size
     OpenWrongPagesize(u64),
@@ -93,6 +96,7 @@ impl Action {
             Action::PinnedLayout => json!("headers-into-pinned-slots"),
             Action::LeakFreePage => json!("drop-last-id-from-free-list"),
             Action::OpenWrongPagesize(ps) => json!({"open-with-pagesize": ps}),
+            Action::ReopenNumPages(np) => json!({"reopen-with-num-pages": np}),
             Action::OpenReader => json!("open-reader"),
             Action::CloseReader(i) => json!({"close-reader": i}),
         }
@@ -120,6 +124,9 @@ impl Action {
         }
         if let Some(ops) = v.get("rotx") {
             return Action::RoTx { ops: ops.as_array().unwrap().iter().map(OpSpec::from_json).collect() };
+        }
+        if let Some(np) = v.get("reopen-with-num-pages") {
+            return Action::ReopenNumPages(np.as_u64().unwrap() as usize);
         }
         if let Some(ps) = v.get("open-with-pagesize") {
             return Action::OpenWrongPagesize(ps.as_u64().unwrap());
@@ -879,6 +886,23 @@ impl Runner {
                     let writes = events.iter().filter(|e| matches!(e, crate::iosim::IoEvent::Write { .. } | crate::iosim::IoEvent::Fallocate { .. } | crate::iosim::IoEvent::Ftruncate { .. })).count();
                     if writes > 0 {
                         out.push(Violation::new("open_wrote", format!("{} write/extend calls while opening an existing database", writes)));
+                    }
+                }
+                self.check_committed_state(or, &what, &mut out);
+            }
+            Action::ReopenNumPages(np) => {
+                if !self.readers.is_empty() {
+                    return out;
+                }
+                self.db = None;
+                let cfg = Cfg { num_pages: *np, ..self.cfg.clone() };
+                let path = self.path.clone();
+                match guarded(|| cfg.open(&path)) {
+                    Ok(Ok(db)) => self.db = Some(Box::new(db)),
+                    other => {
+                        out.push(Violation::new("reopen_error", format!("open with num_pages {}: {:?}", np, other.map(|x| x.map(|_| ())))));
+                        self.poisoned = true;
+                        return out;
                     }
                 }
                 self.check_committed_state(or, &what, &mut out);
